@@ -63,7 +63,7 @@ def call_and_compare(ctx, e, args, variant, spec):
         if i in exempt:
             continue
         if a != b:
-            what = "shape/dtype/names/keys" if a[:5] != b[:5] else "coefficient bytes"
+            what = "shape/dtype/names/keys/exponents" if a[:6] != b[:6] else "coefficient bytes"
             ctx.fail({"kind": "c17", "entry": e.name, "variant": variant, "spec": spec},
                      f"{e.name} ({variant}{', raised ' + type(raised).__name__ if raised else ''}) modified argument {i}: {what} changed",
                      [f"entry:{e.name}", f"variant:{variant}", "mutation"])
